@@ -22,6 +22,7 @@ package ice
 //@
 //@ spec isCHW(x int) bool = x != 0 && dyntype(x) == typetag("*countHashWriter")
 //@ typeinv countHashWriter self.w != self && dyntype(self) == typetag("*countHashWriter")
+//@ typeinv countHashWriter self.n >= 0
 //@
 //@ func newCountHashWriter
 //@   safety[C11] nil
@@ -75,6 +76,8 @@ package ice
 //@ // assumed wherever a *Segment is received.
 //@ typeinv Segment self.footer != nil && self.data != nil && self.fieldFSTs != nil
 //@ globalinv emptyDictionary != nil && emptyPostingsList != nil && emptyPostingsIterator != nil && emptyDictionaryIterator != nil
+//@ // the shared empty postings list is never written (postingsListInit refuses to reuse it)
+//@ globalinv emptyPostingsList.postings == nil && emptyPostingsList.normBits1Hit == 0
 //@ typeinv Segment len(self.dictLocs) == len(self.fieldsInv)
 //@ typeinv Segment forallstr(k, self.fieldsMap[k] <= len(self.fieldsInv))
 //@
@@ -131,6 +134,7 @@ package ice
 //@   safety[C08,C13,C18] nil
 //@   requires[C08,C13,C18] d != nil && d.sb != nil
 //@   ensures[C08,C13,C18] result1 == nil ==> result0 != nil
+//@   ensures[C08,C13] result1 == nil ==> result0.sb == d.sb
 //@   ensures[C08,C13] result1 == nil && !is1Hit(postingsOffset) ==> result0.normBits1Hit == 0
 //@
 //@ func (*Dictionary).postingsList
@@ -434,7 +438,7 @@ package ice
 //@
 //@ func newChunkedDocumentCoder
 //@   ensures[C03,C04,C06] result0 != nil && fresh(result0) && result0.w == w && result0.chunkSize == chunkSize && result0.n == 0 && result0.bytes == 0
-//@   ensures[C03,C04,C06] len(result0.offsets) == 1 && result0.buf != nil && fresh(result0.offsets)
+//@   ensures[C03,C04,C06] len(result0.offsets) == 1 && result0.buf != nil && fresh(result0.offsets) && len(result0.metaBuf) == 10
 //@
 //@ // the per-segment mapping tables are read-only for everything after the stored section
 //@ func setupActiveForField
@@ -578,3 +582,35 @@ package ice
 //@   requires[C16] s != nil && s.FieldDocs != nil && s.FieldDocs != s.FieldFreqs
 //@   loop 0 invariant[C16] forall(k, s.FieldDocs[k] == old(s.FieldDocs[k]) + ite(rangevisited(0, k), 1, 0))
 //@   ensures[C16] @once_per_document forall(k, old(s.FieldDocs[k]) <= s.FieldDocs[k] && s.FieldDocs[k] <= old(s.FieldDocs[k]) + 1)
+//@
+//@ // ---------------------------------------------------------------------------
+//@ // C04: what the writers establish is what Load relies on
+//@ // the stored section always ends with the 8-byte chunk trailer (offsets length, chunk count)
+//@ func (*chunkedDocumentCoder).Write
+//@   requires[C04] c != nil && c.buf != nil && c.metaBuf != nil
+//@   ensures[C04] @trailer_written result0 == nil && isCHW(c.w) ==> cast(c.w, "*countHashWriter").n >= old(cast(c.w, "*countHashWriter").n) + 8
+//@   loop 0 invariant[C04] c.w == old(c.w) && (isCHW(c.w) ==> cast(c.w, "*countHashWriter").n >= old(cast(c.w, "*countHashWriter").n))
+//@
+//@ func (*chunkedDocumentCoder).flush
+//@   ensures[C04] c.w == old(c.w) && (isCHW(c.w) ==> cast(c.w, "*countHashWriter").n >= old(cast(c.w, "*countHashWriter").n))
+//@
+//@ func mergeStoredAndRemap
+//@   ensures[C04] @stored_trailer_present err == nil ==> storedIndexOffset >= 8
+//@
+//@ func mergeToWriter
+//@   ensures[C04] @stored_trailer_present err == nil ==> footerVal.storedIndexOffset >= 8
+//@
+//@ // C08/C13: a postings list handed out by a dictionary either is empty or knows its segment;
+//@ // iterating an empty list (fresh or reused, known or unknown field) must not touch the segment
+//@ func (*Dictionary).postingsList
+//@   ensures[C08,C13] @nonempty_knows_segment result1 == nil && result0.normBits1Hit == 0 && result0.postings != nil && card(bset(result0.postings)) > 0 ==> result0.sb != nil
+//@
+//@ func (*PostingsList).iterator
+//@   safety[C08,C13] nil
+//@   requires[C08,C13] p != nil
+//@   requires[C08,C13] p.normBits1Hit == 0 && p.postings != nil && card(bset(p.postings)) > 0 ==> p.sb != nil
+//@
+//@ func (*PostingsList).Iterator
+//@   safety[C08,C13] nil
+//@   requires[C08,C13] p != nil
+//@   requires[C08,C13] p.normBits1Hit == 0 && p.postings != nil && card(bset(p.postings)) > 0 ==> p.sb != nil
